@@ -121,3 +121,84 @@ Example smtp_nonvacuous :
   fst (fst (smtp_session g [77;65;73;76;32;60;97;62;10; 82;67;80;84;32;60;98;64;111;107;62;10; 82;67;80;84;32;60;98;64;110;111;62;10; 68;65;84;65;10; 46;13;10; 81;85;73;84;10] []))
   = [250; 250; 553; 354; 250; 221].
 Proof. vm_compute. reflexivity. Qed.
+
+(* ---- the tables behind "matches the configured recipient-host lists ... including the compiled extra list" ----
+   The session model above tests membership in abstract lists.  The statements below are about the CONCRETE
+   tables: the constmap hash table of constmap.c (Base/Constmap.v) built from control/rcpthosts and
+   control/badmailfrom, and the byte image of control/morercpthosts.cdb as cdbmss.c/cdbmake_*.c write it and
+   cdb_seek.c reads it (Base/Cdb.v), compiled from the text by qmail-newmrh (Local/NewU.v newmrh_image). *)
+From NQ Require Base.Cdb Base.CdbProofs Base.Constmap Send.ConstmapProofs Local.NewU Smtp.RcptHosts Smtp.RcptHostsProofs.
+
+(* the reader finds in the file the writer produced exactly the first record with the key (any number of records,
+   any keys and data, file below 2^32 bytes) *)
+Theorem cdb_reader_finds_what_writer_stored : forall rs key, Cdb.recs_ok rs -> Cdb.bytes_ok key ->
+  Cdb.cdb_get (Cdb.cdb_make rs) key = Cdb.get_spec rs key.
+Proof. exact CdbProofs.cdb_get_make. Qed.
+Print Assumptions cdb_reader_finds_what_writer_stored.
+
+(* whatever bytes the file holds (truncated, damaged, hostile): a positive answer points at a record header inside
+   the file with the key's length and the key's bytes after it - garbage is never a match *)
+Theorem cdb_positive_answer_is_a_stored_key : forall f key dpos dlen,
+  Cdb.cdb_seek f key = Cdb.SFound dpos dlen ->
+  exists poskd hdr,
+    Cdb.read_at f poskd 8 = Some hdr /\
+    Cdb.unpack32 (firstn 4 hdr) = Cdb.blen key /\ Cdb.unpack32 (skipn 4 hdr) = dlen /\
+    dpos = poskd + 8 + Cdb.blen key /\
+    (key = [] \/ Cdb.read_at f (poskd + 8) (length key) = Some key).
+Proof. exact CdbProofs.seek_found_sound. Qed.
+Print Assumptions cdb_positive_answer_is_a_stored_key.
+
+(* constmap: the hash folds case exactly as the comparison does, so a lookup is case-insensitive membership *)
+Theorem constmap_hash_respects_case : forall a b, ConstmapProofs.bytes_ok a -> ConstmapProofs.bytes_ok b ->
+  Constmap.case_eqb a b = true -> Constmap.cm_hash a = Constmap.cm_hash b.
+Proof. exact ConstmapProofs.hash_respects_case. Qed.
+Print Assumptions constmap_hash_respects_case.
+Theorem constmap_is_case_insensitive_membership : forall lines s, Forall ConstmapProofs.bytes_ok lines -> ConstmapProofs.bytes_ok s ->
+  (match Constmap.constmap (Constmap.constmap_init lines false) s with Some _ => true | None => false end) = cm_has lines s.
+Proof. exact ConstmapProofs.constmap_plain. Qed.
+Print Assumptions constmap_is_case_insensitive_membership.
+
+(* rcpthosts() on the concrete tables = the session model's membership test, and it never fails on a file
+   qmail-newmrh wrote; bmfcheck() likewise *)
+Theorem rcpthosts_on_concrete_tables : forall g text addr,
+  g_morercpthosts g = NewU.newmrh_keys text ->
+  Cdb.recs_ok (map (fun k => (k, [])) (NewU.newmrh_keys text)) ->
+  (forall l, g_rcpthosts g = Some l -> Forall ConstmapProofs.bytes_ok l) -> Cdb.bytes_ok addr ->
+  RcptHosts.rcpthosts_c (RcptHosts.maprh_of g) (Some (NewU.newmrh_image text)) addr =
+  if rcpthosts g addr then RcptHosts.RHYes else RcptHosts.RHNo.
+Proof. exact RcptHostsProofs.rcpthosts_concrete. Qed.
+Print Assumptions rcpthosts_on_concrete_tables.
+Theorem rcpthosts_without_compiled_list : forall g addr,
+  g_morercpthosts g = [] ->
+  (forall l, g_rcpthosts g = Some l -> Forall ConstmapProofs.bytes_ok l) -> Cdb.bytes_ok addr ->
+  RcptHosts.rcpthosts_c (RcptHosts.maprh_of g) None addr = if rcpthosts g addr then RcptHosts.RHYes else RcptHosts.RHNo.
+Proof. exact RcptHostsProofs.rcpthosts_concrete_nocdb. Qed.
+Print Assumptions rcpthosts_without_compiled_list.
+Theorem badmailfrom_on_concrete_table : forall g addr,
+  (forall l, g_bmf g = Some l -> Forall ConstmapProofs.bytes_ok l) -> Cdb.bytes_ok addr ->
+  RcptHosts.bmfcheck_c (RcptHosts.mapbmf_of g) addr = bmfcheck g addr.
+Proof. exact RcptHostsProofs.bmfcheck_concrete. Qed.
+Print Assumptions badmailfrom_on_concrete_table.
+
+(* a damaged or hostile morercpthosts.cdb: "allowed" only through a table hit or a suffix literally stored in the file;
+   a read error is its own answer (qmail-smtpd: 421), never "allowed" *)
+Theorem rcpthosts_with_any_file : forall m f addr,
+  RcptHosts.rcpthosts_c (Some m) (Some f) addr = RcptHosts.RHYes ->
+  match rchr_opt addr ATc with
+  | None => True
+  | Some j =>
+      let sfxs := dom_suffixes true (lowers (skipn (S j) addr)) in
+      existsb (RcptHosts.cm_hit m) sfxs = true \/
+      exists s dpos dlen, In s sfxs /\ Cdb.cdb_seek f s = Cdb.SFound dpos dlen
+  end.
+Proof. exact RcptHostsProofs.rcpthosts_hostile_file. Qed.
+Print Assumptions rcpthosts_with_any_file.
+
+Example concrete_tables_nonvacuous :
+  let text := [109;111;114;101;46;100;111;109;10; 46;87;105;108;100;46;68;111;109;32;10] in        (* "more.dom\n.Wild.Dom \n" *)
+  NewU.newmrh_keys text = [[109;111;114;101;46;100;111;109]; [46;119;105;108;100;46;100;111;109]] /\
+  RcptHosts.rcpthosts_c (Some (Constmap.constmap_init [[111;107;46;100;111;109]] false)) (Some (NewU.newmrh_image text))
+     [106;64;120;46;119;105;108;100;46;100;111;109] = RcptHosts.RHYes /\                                (* j@x.wild.dom *)
+  RcptHosts.rcpthosts_c (Some (Constmap.constmap_init [[111;107;46;100;111;109]] false)) (Some (firstn 100 (NewU.newmrh_image text)))
+     [106;64;120;46;119;105;108;100;46;100;111;109] = RcptHosts.RHErr.                                  (* truncated file *)
+Proof. vm_compute. repeat split; reflexivity. Qed.
